@@ -404,6 +404,13 @@ def runC17 (t : Tier) : Emit Unit := do
     let ops2 : List MuxOp := [.add { elementaryPID := 0x100, streamType := 0x1b }, .setPCR 0x100, .add { elementaryPID := 0x101, elementaryStreamDescriptors := fat, streamType := 0x06 }]
       ++ a ++ [.remove 0x101] ++ b
     emit "C17" (muxCase { period := period, ops := ops2 } true "tables-failing-inside-writedata-stay-due")
+  -- rejected calls between two emissions (duplicate add, remove of an unknown PID, add on the PMT PID / null PID) change
+  -- nothing: the next PMT carries the same version
+  let rej : List MuxOp := [.add { elementaryPID := 0x100, streamType := 0x1b }, .setPCR 0x100, .tables,
+    .add { elementaryPID := 0x100, streamType := 0x0f }, .tables, .remove 0x321, .tables,
+    .add { elementaryPID := 0x1000, streamType := 0x0f }, .tables, .add { elementaryPID := 0x1fff, streamType := 0x0f }, .tables,
+    .add { elementaryPID := 0x101, streamType := 0x0f }, .tables, .remove 0x101, .remove 0x101, .tables]
+  emit "C17" (muxCase { period := 40, ops := rej } true "rejected-calls-leave-the-version")
   -- a muxer created without the period option: the default period (40 WriteData calls) applies
   let mut dops : List MuxOp := [.add { elementaryPID := 0x100, streamType := 0x1b }, .setPCR 0x100]
   for _ in [0:85] do
